@@ -61,7 +61,7 @@ func c09new(caller bool) *c09world {
 		w.loggers[name] = l
 	}
 	root := slog.VerifEntryOf(slog.New("root"))
-	mk("probed", root.New("probed").SetAttrs(slog.NewAttr("own", 1)))
+	mk("probed", root.New("probed").SetAttrs(slog.NewAttr("own", 1), slog.NewAttr("own2", "two"), slog.Group("og", "m", 1, "l", 2)))
 	mk("sibling", root.New("sibling").SetAttrs(slog.NewAttr("sib", "x"), slog.Group("sg", "a", 1)))
 	mk("default", slog.VerifEntryOf(slog.Default()))
 	return w
@@ -223,7 +223,7 @@ func c09run(c *Ctx) {
 			if len(p) == 2 && h.Shape != "rich" && h.Shape != "verb" && h.Shape != "verb-small" {
 				continue // third history element: the shapes that touch the most state
 			}
-			if !c.Thorough() && len(p) == 1 && (h.Shape == "plain" || h.Target == "default" || slog.Level(h.Sev) == slog.TraceLevel) {
+			if !c.Thorough() && len(p) == 1 && (h.Shape == "plain" || h.Shape == "rich" && h.Target == "default" || slog.Level(h.Sev) == slog.TraceLevel) {
 				continue // quick: second history element from the state-heavy half of the alphabet
 			}
 			rec(append(p, h))
